@@ -22,6 +22,7 @@ def run(ctx):
     ctx.each(r07b, ctx, repo)
     ctx.each(r07d, ctx, repo)
     ctx.each(informational, ctx, repo)
+    ctx.each(r07e, ctx, repo)
 
 
 def _raised_class(r):
@@ -158,3 +159,29 @@ def informational(ctx, repo):
         fi = repo.func(m, q)
         hs = [h for h in own_nodes(fi.node) if isinstance(h, ast.ExceptHandler) and h.type is not None and "BadInitialization" in ast.unparse(h.type)]
         ctx.note("R07c", "%s:%s %s BadInitialization (%d handler)" % (m, q, "catches" if hs else "does NOT catch", len(hs)))
+
+
+def r07e(ctx, repo):
+    """Initial-size data are scaled by both calibration factors (the clause of C07 about 'times its calibration factors'; same rule as R06c, restricted to the initialisation)."""
+    from . import c06
+
+    ctx.rule("R07e", "every databook value read for initialisation (quantity and its denominator) is multiplied by the population y_factor and the meta_y_factor")
+    fi = repo.func("model", "Population.initialize_compartments")
+    n = 0
+    for c in own_nodes(fi.node):
+        if isinstance(c, ast.Call) and isinstance(c.func, ast.Attribute) and c.func.attr == "interpolate":
+            recv = ast.unparse(c.func.value)
+            top = c
+            while True:
+                p_ = getattr(top, "_parent", None)
+                if isinstance(p_, ast.BinOp) and isinstance(p_.op, ast.Mult):
+                    top = p_
+                elif isinstance(p_, ast.Subscript) and p_.value is top:
+                    top = p_
+                else:
+                    break
+            facs = c06._mult_factors(top) if isinstance(top, ast.BinOp) else []
+            n += 1
+            ok = any(f.startswith("%s.y_factor[" % recv) for f in facs) and ("%s.meta_y_factor" % recv) in facs
+            ctx.check(ok, "R07e", fi, enclosing_stmt(c), "`%s` scaled by y_factor and meta_y_factor" % ast.unparse(c)[:50], "the initialisation value `%s` is not multiplied by both calibration factors of `%s`: the initial state does not reproduce the calibrated databook quantity" % (ast.unparse(c)[:60], recv))
+    ctx.require(n >= 2, "R07e: fewer interpolate() sites in initialize_compartments (%d) than confirmed (2)" % n)
